@@ -66,7 +66,7 @@ package index
 //@   loop 0 invariant @prefixsep forall k in 0..c :: forall m in 0..c :: m == k+1 ==> vo(chunks[k].End) < vo(chunks[m].Begin)
 //@   loop 0 invariant @prefixsorted forall i in 0..c :: forall j in i..c :: vo(chunks[i].Begin) <= vo(chunks[j].Begin)
 //@   loop 0 invariant @link forall k in c..len(chunks) :: vo(chunks[c-1].Begin) <= vo(chunks[k].Begin)
-//@   loop 0 invariant @covered forall i in 0..c + len(old(chunks)) - len(chunks) :: 0 <= w[i] && w[i] < c && covers(chunks[w[i]], old(chunks[i]))
+//@   loop 0 invariant @covered:tail,link,prefixwf,prefixsorted,prefixsep forall i in 0..c + len(old(chunks)) - len(chunks) :: 0 <= w[i] && w[i] < c && covers(chunks[w[i]], old(chunks[i]))
 //@   loop 0 invariant @exact forall p int64 :: forall j in 0..c :: holds(chunks[j], p) ==> inOld(p)
 //@   loop 0 invariant @idem old(separated(chunks)) ==> (len(chunks) == len(old(chunks)) && forall k in 0..len(chunks) :: chunks[k] == old(chunks[k]))
 //@   loop 0 decreases 2*len(chunks) - c
@@ -77,3 +77,34 @@ package index
 //@   ensures[C17] @covered forall i in 0..len(chunks) :: exists j in 0..len(result) :: covers(result[j], old(chunks[i]))
 //@   ensures[C17] @exact forall p int64 :: forall j in 0..len(result) :: holds(result[j], p) ==> inOld(p)
 //@   ensures[C17] @idempotent old(separated(chunks)) && len(chunks) > 0 ==> (result == chunks && forall k in 0..len(chunks) :: chunks[k] == old(chunks[k]))
+
+// CompressorStrategy(near): like adjacent, but chunks are merged when the file
+// offsets of their BGZF blocks are within near of each other. The result
+// leaves no two neighbours closer than near; coverage and order are kept.
+//@ spec func farApart(s []bgzf.Chunk, near int64) bool =
+//@     forall k in 0..len(s) :: forall m in 0..len(s) :: m == k+1 ==> s[k].End.File + near < s[m].Begin.File
+//@ func CompressorStrategy$1
+//@   mode int
+//@   props C17
+//@   terminates
+//@   requires 0 <= near && near <= 4611686018427387904
+//@   requires sortedByBegin(chunks) && wfChunks(chunks)
+//@   modifies chunks[:]
+//@   ghost w map[int]int
+//@   at append#0 assert fits
+//@   at loop 0 back ghost w[c + len(old(chunks)) - len(chunks) - 1] = c - 1
+//@   loop 0 invariant @shape 1 <= c && c <= len(chunks) && len(chunks) <= len(old(chunks)) && sameArray(chunks, old(chunks)) && cap(chunks) == cap(old(chunks))
+//@   loop 0 invariant @tail forall k in c..len(chunks) :: chunks[k] == old(chunks[now(k + len(old(chunks)) - len(chunks))])
+//@   loop 0 invariant @prefixwf forall k in 0..c :: wfChunk(chunks[k])
+//@   loop 0 invariant @prefixfar forall k in 0..c :: forall m in 0..c :: m == k+1 ==> chunks[k].End.File + near < chunks[m].Begin.File
+//@   loop 0 invariant @prefixsorted forall i in 0..c :: forall j in i..c :: vo(chunks[i].Begin) <= vo(chunks[j].Begin)
+//@   loop 0 invariant @link forall k in c..len(chunks) :: vo(chunks[c-1].Begin) <= vo(chunks[k].Begin)
+//@   loop 0 invariant @covered:tail,link,prefixwf forall i in 0..c + len(old(chunks)) - len(chunks) :: 0 <= w[i] && w[i] < c && covers(chunks[w[i]], old(chunks[i]))
+//@   loop 0 invariant @idem old(farApart(chunks, near)) ==> (len(chunks) == len(old(chunks)) && forall k in 0..len(chunks) :: chunks[k] == old(chunks[k]))
+//@   loop 0 decreases 2*len(chunks) - c
+//@   ensures[C17] @empty len(chunks) == 0 ==> result == nil
+//@   ensures[C17] @wf wfChunks(result)
+//@   ensures[C17] @sorted sortedByBegin(result)
+//@   ensures[C17] @far farApart(result, near)
+//@   ensures[C17] @covered forall i in 0..len(chunks) :: exists j in 0..len(result) :: covers(result[j], old(chunks[i]))
+//@   ensures[C17] @idempotent old(farApart(chunks, near)) && len(chunks) > 0 ==> (result == chunks && forall k in 0..len(chunks) :: chunks[k] == old(chunks[k]))
